@@ -118,6 +118,9 @@ def arm_constraints(arm, binds):
         res = analyse(expr, binds, names, cons)
         if target and res:
             names[target] = res if isinstance(res, str) else "%s(%s)" % (res[0], ",".join(str(x) for x in res[1:]))
+        elif target and s_.get("k") == "let" and peel(expr).get("k") == "field" and not s_["pat"].get("mut"):
+            # `let array_index_width = tpe.index_width;`: another name of that field
+            names[target] = _subst(show(peel(expr)).replace(" ", ""), names)
         if last:
             result = res if res else analyse_result(expr, binds, names, cons)
     return cons, result, names
@@ -257,6 +260,16 @@ def normcmp(c, names):
     return t
 
 
+def sym_reject(c):
+    """`a != b` and `b != a` (likewise ==) are the same rejection: order the operands"""
+    if len(c) == 2 and c[0] == "reject":
+        for op in ("!=", "=="):
+            if op in c[1] and c[1].count(op) == 1 and "<" not in c[1] and ">" not in c[1]:
+                l, r = c[1].split(op)
+                return ("reject", op.join(sorted([l, r])))
+    return tuple(c)
+
+
 def canon_cons(cons, info):
     """rename field keys so that positional (0,1,..) and named keys compare with the oracle"""
     return {tuple(str(x) for x in c) for c in cons}
@@ -290,8 +303,8 @@ def check(ctx, t0, rule="T4"):
             ctx.violation(rule, "type_check:%s" % vn, arm["sp"], "no typing rule in the oracle for %s" % vn)
             continue
         wc, wr = want
-        got_c = canon_cons(cons, None)
-        want_c = {tuple(str(x) for x in c) for c in wc}
+        got_c = {sym_reject(c) for c in canon_cons(cons, None)}
+        want_c = {sym_reject(tuple(str(x) for x in c)) for c in wc}
         # normalise reject texts of the oracle for slice / array read
         got_c = {tuple(x.replace("w(e)", "w(e)") for x in c) for c in got_c}
         # `same_width_of(a,b,W)` subsumes `same_width` + result_of
